@@ -219,14 +219,9 @@ def _is_instance(obj: Any, type_: Any, type_vars: Dict[TypeVar_, Any], context: 
 
         return _is_instance(obj=obj, type_=type_.__supertype__, type_vars=type_vars, context=context)  # NewType of a NewType or of a generic
 
-    if hasattr(obj, '_asdict'):
-        if hasattr(type_, '_field_types'):
-            field_types = type_._field_types
-        elif hasattr(type_, '__annotations__'):
-            field_types = type_.__annotations__
-        else:
-            return False
+    field_types = getattr(type_, '_field_types', None) or getattr(type_, '__annotations__', None)
 
+    if hasattr(obj, '_asdict') and isinstance(type_, type) and field_types:  # a named tuple against a class with typed fields
         if not obj._asdict().keys() == field_types.keys():
             return False
 
